@@ -1203,3 +1203,11 @@ pub(crate) fn c_extend_ref<const N: usize, const L: usize>() {
     check!(bytes_of(&b).eq(&m), "[C01,C12] extend(&T): contents are not the last N of (old contents ++ copied items)");
     nd::reached();
 }
+
+// ----- function contracts (attribute form) on the index arithmetic (C19, C01) ----------------
+// proof_for_contract harnesses: loop-free, arguments range over all of usize = a complete proof
+
+#[cfg(kani)]
+pub(crate) fn fc_add_mod() { let _ = crate::add_mod(kani::any(), kani::any(), kani::any()); }
+#[cfg(kani)]
+pub(crate) fn fc_sub_mod() { let _ = crate::sub_mod(kani::any(), kani::any(), kani::any()); }
